@@ -304,6 +304,40 @@ theorem step_sim (d : Dyn σ ρ) (s : Server σ) (u : UServer σ) (hi : Inv d s)
             rw [h]
             cases hu : u.live id <;> simp [upd, hx]
       · cases hu : u.live id <;> exact hr.used
+  | damage id =>
+    simp only [stepC, stepU]
+    by_cases hf : (s.files id).isSome
+    · have hd : damageFile s id = { s with files := upd s.files id (some .torn) } := by simp [damageFile, hf]
+      rw [hd]
+      let s' : Server σ := { s with files := upd s.files id (some .torn) }
+      have hi' : Inv d s' := by
+        constructor
+        · exact hi.sim
+        · intro x j p h hp
+          simp only [s', upd] at hp
+          split at hp
+          · cases hp
+          · exact hi.file x j p h hp
+        · intro x h
+          simp only [s', upd] at h
+          by_cases hx : x = id
+          · subst hx; exact hi.used x (Or.inr hf)
+          · simp only [hx, if_false] at h; exact hi.used x h
+      refine ⟨inv_restart d s' hi', ?_, (by simp)⟩
+      constructor
+      · intro x
+        rw [eff_restart]
+        by_cases hx : x = id
+        · subst hx; left; simp [s', readable, upd]
+        · have hrd : readable s'.files x = readable s.files x := by simp [s', readable, upd, hx]
+          rw [hrd]
+          have h2 := (rel_restart d s u hi hr).eff x
+          rw [eff_restart] at h2
+          exact h2
+      · exact hr.used
+    · have hd : damageFile s id = s := by simp [damageFile, hf]
+      rw [hd]
+      exact ⟨inv_restart d s hi, rel_restart d s u hi hr, (by simp)⟩
 
 /-- the relation and the invariant hold along every history; answers agree request by request -/
 theorem run_sim (d : Dyn σ ρ) (ops : List Op) : ∀ (s : Server σ) (u : UServer σ), Inv d s → Rel d s u →
@@ -448,6 +482,7 @@ theorem stepCC_good (c : Cfg) (h : c.replayIsComplete = true) (d : Dyn σ ρ) (s
   | start id spec => rfl
   | step id st => simp [stepCC, stepC, atomize, effC_good c h]
   | crash => simp [stepCC, stepC, atomize, restartC_good c h]
+  | damage id => simp [stepCC, stepC, atomize, restartC_good c h]
   | crashInWrite id st =>
     cases ha : c.atomicWrite with
     | false => simp [stepCC, stepC, atomize, effC_good c h, restartC_good c h, ha]
@@ -485,15 +520,34 @@ def C20_full_cfg (c : Cfg) (d : Dyn σ ρ) : Prop :=
         effC c d (stepCC c d (finalCC c d Server.empty ops) (.crashInWrite id st)).1 x = effC c d (finalCC c d Server.empty ops) x) ∧
     (c.atomicWrite = true → ∀ id st x p, (finalCC c d Server.empty ops).files x = some (.ok p) →
       (stepCC c d (finalCC c d Server.empty ops) (.crashInWrite id st)).1.files x = some (.ok p) ∧
-      effC c d (stepCC c d (finalCC c d Server.empty ops) (.crashInWrite id st)).1 x = effC c d (finalCC c d Server.empty ops) x)
+      effC c d (stepCC c d (finalCC c d Server.empty ops) (.crashInWrite id st)).1 x = effC c d (finalCC c d Server.empty ops) x) ∧
+    -- wave 3: start-up over ANY directory listing, either adapter mode: the constructor does not raise and
+    -- reconstructs exactly the readable entries, each of them whatever stands before or after it
+    (∀ (compress : Bool) (l : List (Option Persist)),
+      startup compress (loadEntries c (listing l)) = some (l.filterMap id))
+
+/-- per-entry load: unreadable entries dropped, every readable one decompressed -/
+theorem startup_perEntry (compress : Bool) : ∀ l : List (Option Persist),
+    startup compress ((listing l).filterMap perEntry) = some (l.filterMap id)
+  | [] => rfl
+  | none :: r => by
+    have := startup_perEntry compress r
+    simp only [listing, List.filterMap_cons, perEntry, id]
+    exact this
+  | some p :: r => by
+    have := startup_perEntry compress r
+    simp only [listing, List.filterMap_cons, perEntry, id, startup, this, Option.map_some]
 
 theorem C20_full_of_good (c : Cfg) (h : c.good = true) (d : Dyn σ ρ) : C20_full_cfg c d := by
-  have h : c.replayIsComplete = true := h
+  have hl : c.loadIsPerEntry = true := by
+    simp only [Cfg.good, Bool.and_eq_true] at h; exact h.2
+  have h : c.replayIsComplete = true := by
+    simp only [Cfg.good, Bool.and_eq_true] at h; exact h.1
   intro ops
   have hold := C20_full_holds d (ops.map (atomize c.atomicWrite))
   obtain ⟨_, hi, _⟩ := run_sim d (ops.map (atomize c.atomicWrite)) _ _ (inv_empty d) (rel_empty d)
   simp only [runCC_good c h, finalCC_good c h, stepCC_good c h, effC_good c h]
-  refine ⟨hold.1, ?_, ?_, ?_⟩
+  refine ⟨hold.1, ?_, ?_, ?_, fun compress l => by simp only [loadEntries, hl, if_true]; exact startup_perEntry compress l⟩
   · intro id st p hp
     simpa [atomize] using hold.2.1 id st p hp
   · intro id st x hx
@@ -512,11 +566,11 @@ theorem map_atomize_false : ∀ ops : List Op, ops.map (atomize false) = ops
   | op :: ops => by cases op <;> simp [atomize, map_atomize_false ops]
 
 /-- the statement of wave 1 is the instance `replayIsComplete, ¬ atomicWrite` -/
-theorem C20_full_of_cfg (d : Dyn σ ρ) (hc : C20_full_cfg ⟨true, false⟩ d) : C20_full d := by
+theorem C20_full_of_cfg (d : Dyn σ ρ) (hc : C20_full_cfg ⟨true, false, true⟩ d) : C20_full d := by
   intro ops
   have := hc ops
-  simp only [runCC_good ⟨true, false⟩ rfl, finalCC_good ⟨true, false⟩ rfl, stepCC_good ⟨true, false⟩ rfl,
-    effC_good ⟨true, false⟩ rfl] at this
+  simp only [runCC_good ⟨true, false, true⟩ rfl, finalCC_good ⟨true, false, true⟩ rfl, stepCC_good ⟨true, false, true⟩ rfl,
+    effC_good ⟨true, false, true⟩ rfl] at this
   simp only [map_atomize_false, atomize] at this
   exact ⟨this.1, this.2.1, this.2.2.1⟩
 
@@ -533,18 +587,37 @@ are not replayed, the constant given after the restart is applied to them as wel
 theorem C20_witness_partial_replay (c : Cfg) (h : c.replayIsComplete = false) : ¬ C20_full_cfg c lazyDyn := by
   intro hf
   have h4 := (hf lateOps).1 4
-  obtain ⟨r, a⟩ := c
+  obtain ⟨r, a, l⟩ := c
   simp only at h
   subst h
-  cases a <;> exact absurd h4 (by decide)
+  cases a <;> cases l <;> exact absurd h4 (by decide)
 
 /-- what the complete replay answers, and what the incomplete one answers -/
-example : (runCC ⟨true, false⟩ lazyDyn Server.empty lateOps)[4]? = some (.ok [(1024, "1"), (2048, "1"), (3072, "5")]) := by decide
+example : (runCC ⟨true, false, true⟩ lazyDyn Server.empty lateOps)[4]? = some (.ok [(1024, "1"), (2048, "1"), (3072, "5")]) := by decide
 example : (runU lazyDyn UServer.empty lateOps)[4]? = some (.ok [(1024, "1"), (2048, "1"), (3072, "5")]) := by decide
-example : (runCC ⟨false, false⟩ lazyDyn Server.empty lateOps)[4]? = some (.ok [(1024, "5"), (2048, "5"), (3072, "5")]) := by decide
+example : (runCC ⟨false, false, true⟩ lazyDyn Server.empty lateOps)[4]? = some (.ok [(1024, "5"), (2048, "5"), (3072, "5")]) := by decide
 /-- … and why such a defect passes every history WITHOUT settings after the restart: on-demand computation
 gives the same values then -/
-example : runCC ⟨false, false⟩ lazyDyn Server.empty quietOps = runU lazyDyn UServer.empty quietOps := by decide
+example : runCC ⟨false, false, true⟩ lazyDyn Server.empty quietOps = runU lazyDyn UServer.empty quietOps := by decide
+
+/-! ### the skipping load (wave 3) -/
+
+def demoPersist : Persist := { spec := lateSpec, step := 2048, log := [(1024, [])] }
+
+/-- `for x in state: if x is None: state.remove(x) …`: the entry after a removed one is never visited.  With a
+damaged file listed before a readable one the readable one reaches the constructor with compressed logs: it raises. -/
+theorem C20_witness_skipping_load (c : Cfg) (h : c.loadIsPerEntry = false) (d : Dyn σ ρ) : ¬ C20_full_cfg c d := by
+  intro hf
+  have h5 := (hf []).2.2.2.2 true [none, some demoPersist]
+  simp only [loadEntries, h] at h5
+  exact absurd h5 (by decide)
+
+/-- the three shapes: damaged file first (compressed mode: raises), damaged file last (harmless — why the defect
+hides), two adjacent damaged files (raises in either mode) -/
+example : startup true (loopSkip 2 0 (listing [none, some demoPersist])) = none := by decide
+example : startup true (loopSkip 2 0 (listing [some demoPersist, none])) = some [demoPersist] := by decide
+example : startup false (loopSkip 3 0 (listing [none, none, some demoPersist])) = none := by decide
+example : startup false (loopSkip 2 0 (listing [none, some demoPersist])) = some [demoPersist] := by decide
 
 /-! ### the atomic write -/
 
@@ -555,21 +628,21 @@ def NoLossInWrite (c : Cfg) (d : Dyn σ ρ) : Prop :=
     (stepCC c d (finalCC c d Server.empty ops) (.crashInWrite id st)).1.files x = some (.ok p)
 
 theorem noLoss_of_atomic (c : Cfg) (h : c.good = true) (ha : c.atomicWrite = true) (d : Dyn σ ρ) : NoLossInWrite c d :=
-  fun ops id st x p hp => ((C20_full_of_good c h d ops).2.2.2 ha id st x p hp).1
+  fun ops id st x p hp => ((C20_full_of_good c h d ops).2.2.2.1 ha id st x p hp).1
 
 /-- without the atomic write the instance being written IS lost (the file is torn) -/
 theorem noLoss_witness (c : Cfg) (ha : c.atomicWrite = false) : ¬ NoLossInWrite c histDyn := by
   intro hf
   have := hf [.start 1 lateSpec, .step 1 []] 1 [] 1 { spec := lateSpec, step := 2048, log := [(1024, [])] }
-  obtain ⟨r, a⟩ := c
+  obtain ⟨r, a, l⟩ := c
   simp only at ha
   subst ha
-  cases r <;> exact absurd (this (by decide)) (by decide)
+  cases r <;> cases l <;> exact absurd (this (by decide)) (by decide)
 
 /-- the torn request is retried after the restart and answered as the uninterrupted session answers it -/
-example : runCC ⟨true, true⟩ histDyn Server.empty [.start 1 lateSpec, .step 1 [(0, "c=5")], .crashInWrite 1 [], .step 1 []]
+example : runCC ⟨true, true, true⟩ histDyn Server.empty [.start 1 lateSpec, .step 1 [(0, "c=5")], .crashInWrite 1 [], .step 1 []]
     = [.none, .ok [(1024, [(0, "c=5")])], .none, .ok [(1024, [(0, "c=5")]), (2048, [])]] := by decide
-example : runCC ⟨true, false⟩ histDyn Server.empty [.start 1 lateSpec, .step 1 [(0, "c=5")], .crashInWrite 1 [], .step 1 []]
+example : runCC ⟨true, false, true⟩ histDyn Server.empty [.start 1 lateSpec, .step 1 [(0, "c=5")], .crashInWrite 1 [], .step 1 []]
     = [.none, .ok [(1024, [(0, "c=5")])], .none, .invalid] := by decide
 
 #print axioms C20_full_holds
@@ -579,6 +652,8 @@ example : runCC ⟨true, false⟩ histDyn Server.empty [.start 1 lateSpec, .step
 #print axioms noLoss_of_atomic
 #print axioms noLoss_witness
 #print axioms stepCC_good
+#print axioms C20_witness_skipping_load
+#print axioms startup_perEntry
 #print axioms C20_continuation
 #print axioms C20_externalised_continues
 #print axioms C20_damage_contained
